@@ -31,6 +31,8 @@ pub enum Site {
     End,
     /// step j of the module's joined task
     Task(usize),
+    /// start-up stage of the module's restart (second occurrence of at_sim_start)
+    Restart(usize),
 }
 
 #[derive(Debug, Clone, Copy, Serialize, Deserialize, PartialEq)]
@@ -54,6 +56,9 @@ pub struct Model {
     /// per module: number of steps of its task (0 = no task), step length
     pub task_steps: Vec<usize>,
     pub task_period: u64,
+    /// per module: after its k-th handled message (counting from 0) it requests shutdown-and-restart (missing = never)
+    #[serde(default)]
+    pub restart_on: Vec<Option<usize>>,
 }
 
 #[derive(Debug, Clone, Serialize, Deserialize, PartialEq)]
@@ -117,6 +122,7 @@ struct Node {
     mode: Mode,
     handled: usize,
     silent: Arc<AtomicBool>,
+    incarnation: u32,
 }
 
 impl Node {
@@ -161,6 +167,10 @@ impl Module for Node {
         self.model.stages[self.idx]
     }
 
+    fn reset(&mut self) {
+        self.incarnation += 1;
+    }
+
     fn at_sim_start(&mut self, stage: usize) {
         if self.silent.load(Ordering::SeqCst) {
             return;
@@ -174,7 +184,10 @@ impl Module for Node {
         log(self.idx, Kind::Start(stage), 0);
         if stage == 0 {
             for (i, t) in self.model.timers[self.idx].iter().enumerate() {
-                schedule_at(Message::default().kind(K_TIMER).id(i as u16), SimTime::from_duration(Duration::from_nanos(*t)));
+                // (a restarted module only re-arms the timers that are still ahead)
+                if *t > now_ns() || self.incarnation == 0 {
+                    schedule_at(Message::default().kind(K_TIMER).id(i as u16), SimTime::from_duration(Duration::from_nanos(*t)));
+                }
             }
             let steps = self.model.task_steps[self.idx];
             if steps > 0 {
@@ -208,7 +221,8 @@ impl Module for Node {
                 }
             }
         }
-        if self.inject(Site::Start(stage)) {}
+        let site = if self.incarnation == 0 { Site::Start(stage) } else { Site::Restart(stage) };
+        if self.inject(site) {}
     }
 
     fn handle_message(&mut self, msg: Message) {
@@ -246,7 +260,12 @@ impl Module for Node {
             }
             _ => {}
         }
-        if fault.is_some_and(|f| f.after_send) && self.inject(Site::Handle(k)) {}
+        if fault.is_some_and(|f| f.after_send) && self.inject(Site::Handle(k)) {
+            return;
+        }
+        if self.incarnation == 0 && self.model.restart_on.get(self.idx).copied().flatten() == Some(k) {
+            current().shutdow_and_restart_in(Duration::from_nanos(2 * MS + 250_000));
+        }
     }
 
     fn at_sim_end(&mut self) -> Result<(), RuntimeError> {
@@ -292,7 +311,7 @@ pub fn execute(case: &Case, mode: Mode) -> Run {
         for i in 0..model.n {
             sim.node(
                 format!("m{i}"),
-                Node { idx: i, model: model.clone(), faults: case.faults.clone(), mode, handled: 0, silent: Arc::new(AtomicBool::new(false)) },
+                Node { idx: i, model: model.clone(), faults: case.faults.clone(), mode, handled: 0, silent: Arc::new(AtomicBool::new(false)), incarnation: 0 },
             );
         }
         sim.node("zz-observer", Observer { n: model.n });
@@ -335,7 +354,7 @@ pub fn execute(case: &Case, mode: Mode) -> Run {
 /// a fixed little simulation; its trace must be the same before and after any faulty run
 pub fn followup_trace() -> Vec<Entry> {
     let case = Case {
-        model: Model { n: 3, star: false, stages: vec![1, 2, 1], timers: vec![vec![MS, 5 * MS], vec![2 * MS], vec![]], ttl: 4, task_steps: vec![2, 0, 1], task_period: 3 * MS },
+        model: Model { n: 3, star: false, stages: vec![1, 2, 1], timers: vec![vec![MS, 5 * MS], vec![2 * MS], vec![]], ttl: 4, task_steps: vec![2, 0, 1], task_period: 3 * MS, restart_on: Vec::new() },
         faults: Vec::new(),
     };
     execute(&case, Mode::Baseline).log
@@ -455,6 +474,7 @@ pub fn gen_model(rng: &mut Rng) -> Model {
         ttl: 1 + rng.below(6) as u16,
         task_steps: (0..n).map(|_| if rng.chance(1, 2) { 1 + rng.usize_below(5) } else { 0 }).collect(),
         task_period: (2 + rng.below(9)) * MS + 500_000,
+        restart_on: (0..n).map(|_| if rng.chance(1, 4) { Some(rng.usize_below(4)) } else { None }).collect(),
     }
 }
 
@@ -466,6 +486,11 @@ pub fn placements(model: &Model, baseline: &[Entry]) -> Vec<Fault> {
         let mut sites: Vec<Site> = (0..model.stages[m]).map(Site::Start).collect();
         sites.extend((0..handled).map(Site::Handle));
         sites.push(Site::End);
+        // the module restarted in the baseline: its start-up stages ran a second time
+        let starts = baseline.iter().filter(|e| e.module == m && e.kind == Kind::Start(0)).count();
+        if starts >= 2 {
+            sites.extend((0..model.stages[m]).map(Site::Restart));
+        }
         for site in sites {
             for catching in [false, true] {
                 for after_send in [false, true] {
@@ -537,6 +562,7 @@ pub fn cmd(args: &Args) -> Report {
             for fl in &case.faults {
                 let key = match fl.site {
                     Site::Start(_) => "faults_at_sim_start",
+                    Site::Restart(_) => "faults_in_a_start_stage_of_a_restart",
                     Site::Handle(_) => {
                         if fl.after_send {
                             "faults_in_handle_message_after_sending"
